@@ -267,6 +267,60 @@ def fft_task(task):
     return None, part
 
 
+def capacity_task(task):
+    """Call histories longer than the caches are large (4096 child lists, 1024 pairs): entries are evicted, requested
+    again, recomputed and evicted again; every call is shadowed by the unmemoised original."""
+    from vlib import cache_shadow
+    from vlib.harness import Partial, describe_exception
+    import phyclone.tree.utils as tu
+
+    cache_shadow.install()
+    cache_shadow.reset()
+    part = Partial()
+    D, G = task["D"], task["G"]
+    try:
+        rng = np.random.default_rng([task["seed"], task["shard"], 1415])
+        tu.compute_log_S.cache_clear()
+        tu._convolve_two_children.cache_clear()
+        pool = gen.make_values(rng, task["distinct"], D, G, "moderate")
+        anchors = gen.make_values(rng, 3, D, G, "smooth")
+        for rnd in range(2):
+            for i, a in enumerate(pool):
+                tu.compute_log_S([a, anchors[i % 3]])
+                part.count("evaluations")
+                if i % 5 == 0:
+                    # recent (still cached), old (evicted) and very old keys again, in either argument order
+                    for back in (3, 1500, 5000):
+                        if i - back >= 0:
+                            j = i - back
+                            tu.compute_log_S([anchors[j % 3], pool[j]])
+                            tu._convolve_two_children(pool[j], anchors[j % 3])
+                            part.count("evaluations", 2)
+        info = tu.compute_log_S.cache_info()
+        part.count("capacity_histories")
+        part.maxi("children_recursion_cache_fill", info.currsize)
+        if info.currsize < (info.maxsize or 0):
+            part.inconc("capacity history did not fill the children-recursion cache (%d of %s)" % (info.currsize, info.maxsize))
+        part.see("capacity|D%d|G%d|%d" % (D, G, task["distinct"]))
+    except Exception as e:
+        et, where, msg = describe_exception(e)
+        if where == "outside-repo":
+            import traceback
+            part.inconc("harness error: " + traceback.format_exc()[-900:])
+        else:
+            part.violation("%s in %s during a call history longer than the caches" % (et, where), {"msg": msg})
+    for fl in cache_shadow.FAILS:
+        part.violation(fl["what"] + " [history longer than the cache]", {"detail": fl["detail"], "shard": task["shard"]})
+    for k, v in cache_shadow.STATS.items():
+        if k.endswith("_max_dev"):
+            part.maxi("capacity_" + k, v)
+        else:
+            part.count("capacity_" + k, int(v))
+    tu.compute_log_S.cache_clear()
+    tu._convolve_two_children.cache_clear()
+    return None, part
+
+
 def collision_task(task):
     """Large argument populations: the cache keys of the two array caches (the memoisation's own key objects, hashed
     and compared exactly as its lru_cache does) are collected for several hundred thousand distinct realistic
@@ -354,6 +408,7 @@ def run(ctx):
                 "without clearing, equal parents through different objects / sibling orders) is shadowed by the wrapped "
                 "original on the same arguments at that moment; cache keys of 3e5-1.5e6 distinct likelihood arrays per "
                 "process collected, any two different arrays with equal keys played through the memoised function; "
+                "histories of 6000-20000 distinct argument lists (longer than the caches: eviction, re-request, recomputation); "
                 "distinct = chain config / synthetic case")
     ctx.assumptions = ["one grid shape per process", "arrays compared on entries above 1e-60 of the row peak (data inside "
                        "the C02 window), 1e-9 relative"]
@@ -371,6 +426,11 @@ def run(ctx):
     ctx.map("checks.c14", "fft_task", tasks, timeout=3000)
     if ctx.counters.get("fft_pairwise_convolution_hits", 0) < 4:
         ctx.inconc("FFT-path pairwise cache hits not observed")
+    tasks = [{"seed": ctx.seed, "shard": i, "distinct": 6000 if quick else 20000, "D": 1 + i % 2, "G": [5, 11][i % 2]}
+             for i in range(2 if quick else 8)]
+    ctx.map("checks.c14", "capacity_task", tasks, timeout=3000)
+    if ctx.counters.get("capacity_histories", 0) < 2:
+        ctx.inconc("capacity histories did not run")
     tasks = [{"seed": ctx.seed, "shard": i, "population": 300000 if quick else 1000000, "D": 1 + i % 2, "G": [5, 11, 3, 21][i % 4]}
              for i in range(4 if quick else 16)]
     ctx.map("checks.c14", "collision_task", tasks, timeout=3000)
